@@ -53,7 +53,7 @@ def okb(case, io, mo):
 
 def run(chk, replay=None):
     gens = gen_sources()
-    proof = proof_check(PID, gen_theorems=("C06Formulas",))
+    proof = proof_check_streams(PID, "C06Streams", extra=("C06Formulas",))
     if gens.get("formulas_error"):
         proof["ok"] = False; proof["problems"].append("translator tools/gen_formulas.py cannot read the current source: " + gens["formulas_error"])
     drv = build_driver(); exe = build_harness("default"); cfg = harness_config(exe)
